@@ -5,11 +5,23 @@
    change to a condition, an error value, a length or a capacity in allocation.rs changes Gen/Alloc.v
    and breaks one of these equalities. *)
 From Coq Require Import NArith List Bool String Lia.
-From BM Require Import Base.Outcome Base.Prims Base.Own Base.Layout Model.Alloc.
+From Coq Require Import ZifyBool ZifyN.
+From BM Require Import Base.Outcome Base.Prims Base.Own Base.Layout Base.Tactics Model.Alloc.
 From BM Require Proofs.AllocProofs.
 From BM.Gen Require Alloc.
 Open Scope bool_scope.
 Open Scope N_scope.
+
+(* "the translated function returns the model's result": unfold the monadic vocabulary, split on every
+   conditional of both sides, turn the tests into arithmetic; what is left is closed by reflexivity, by
+   contradiction between the tests, or by arithmetic on the components.  Written against no particular
+   order or spelling of the tests, so that reordered / De-Morganed / renamed code re-proves. *)
+Ltac refine_eq :=
+  unfold_vocab; unfold cont_resize, cont_set, cont_of_addr in *;
+  repeat (red_bind; cbn [cptr clen ccap l_size l_align bb_ptr bb_layout] in *; split_if);
+  red_bind; cbn [cptr clen ccap l_size l_align bb_ptr bb_layout] in *; b2p; big_consts;
+  try reflexivity; try (exfalso; lia); try (exfalso; congruence);
+  try (repeat f_equal; try reflexivity; lia).
 
 Lemma cont_eta c : mkCont (cptr c) (clen c) (ccap c) = c.
 Proof. destruct c; reflexivity. Qed.
@@ -19,31 +31,22 @@ Variable ENV : env.
 Variables A B : ty.
 
 Lemma gen_try_cast_box c : Gen.Alloc.try_cast_box ENV A B c = Ret (try_cast_cont KBox A B c).
-Proof. reflexivity. Qed.
+Proof. cbn [try_cast_cont]. unfold Gen.Alloc.try_cast_box, try_cast_single. refine_eq. Qed.
 Lemma gen_try_cast_rc c : Gen.Alloc.try_cast_rc ENV A B c = Ret (try_cast_cont KRc A B c).
-Proof. reflexivity. Qed.
+Proof. cbn [try_cast_cont]. unfold Gen.Alloc.try_cast_rc, try_cast_single. refine_eq. Qed.
 Lemma gen_try_cast_arc c : Gen.Alloc.try_cast_arc ENV A B c = Ret (try_cast_cont KArc A B c).
-Proof. reflexivity. Qed.
+Proof. cbn [try_cast_cont]. unfold Gen.Alloc.try_cast_arc, try_cast_single. refine_eq. Qed.
 
 (* the slice ladders: slice containers have capacity = length *)
 Lemma gen_try_cast_slice_box c :
   Gen.Alloc.try_cast_slice_box ENV A B c = Ret (try_cast_cont KBoxSlice A B c).
-Proof.
-  cbn [try_cast_cont]. unfold Gen.Alloc.try_cast_slice_box, try_cast_slice_cont.
-  destruct (al A =? al B); cbn [negb]; [|reflexivity].
-  destruct (sz A =? sz B); cbn [negb].
-  2:{ unfold or_m, and_m, rem_m, div_m, bind.
-      destruct (sz B =? 0) eqn:HB; cbn [negb andb orb].
-      - destruct (clen c * sz A =? 0); cbn [negb]; reflexivity.
-      - destruct (clen c * sz A mod sz B =? 0); cbn [negb]; reflexivity. }
-  reflexivity.
-Qed.
+Proof. cbn [try_cast_cont]. unfold Gen.Alloc.try_cast_slice_box, try_cast_slice_cont. refine_eq. Qed.
 Lemma gen_try_cast_slice_rc c :
   Gen.Alloc.try_cast_slice_rc ENV A B c = Ret (try_cast_cont KRcSlice A B c).
-Proof. exact (gen_try_cast_slice_box c). Qed.
+Proof. cbn [try_cast_cont]. unfold Gen.Alloc.try_cast_slice_rc, try_cast_slice_cont. refine_eq. Qed.
 Lemma gen_try_cast_slice_arc c :
   Gen.Alloc.try_cast_slice_arc ENV A B c = Ret (try_cast_cont KArcSlice A B c).
-Proof. exact (gen_try_cast_slice_box c). Qed.
+Proof. cbn [try_cast_cont]. unfold Gen.Alloc.try_cast_slice_arc, try_cast_slice_cont. refine_eq. Qed.
 
 (* std's invariant on a Vec: capacity * size_of::<T>() <= isize::MAX (a Vec of zero-sized elements
    reports capacity usize::MAX and 0 * usize::MAX = 0) *)
@@ -53,16 +56,8 @@ Lemma gen_try_cast_vec c :
   vec_cap_ok A c ->
   Gen.Alloc.try_cast_vec ENV A B c = Ret (try_cast_cont KVec A B c).
 Proof.
-  intros Hcap. cbn [try_cast_cont]. unfold Gen.Alloc.try_cast_vec, try_cast_vec.
-  destruct (al A =? al B); cbn [negb]; [|reflexivity].
-  destruct (sz A =? sz B); cbn [negb].
-  2:{ unfold mul_m. apply N.ltb_lt in Hcap. rewrite Hcap. cbn [bind].
-      unfold or_m, and_m, rem_m, div_m, bind.
-      destruct (sz B =? 0) eqn:HB; cbn [negb andb orb].
-      - destruct (ccap c * sz A =? 0); cbn [negb]; reflexivity.
-      - destruct (clen c * sz A mod sz B =? 0); cbn [negb orb];
-          [destruct (ccap c * sz A mod sz B =? 0); cbn [negb]|]; reflexivity. }
-  unfold cont_set. rewrite cont_eta. reflexivity.
+  intros Hcap. unfold vec_cap_ok in Hcap. cbn [try_cast_cont]. unfold Gen.Alloc.try_cast_vec, try_cast_vec.
+  destruct c as [p l k]. refine_eq.
 Qed.
 
 (* the panicking forms: unwrap of the fallible form with the container dropped from the error *)
@@ -169,21 +164,14 @@ Lemma gen_box_bytes_of_slice ENV T c : Gen.Alloc.box_bytes_of_slice ENV T c = Re
 Proof. reflexivity. Qed.
 Lemma gen_try_from_box_bytes_sized ENV T b :
   Gen.Alloc.try_from_box_bytes_sized ENV T b = Ret (try_from_box_bytes_sized T b).
-Proof. reflexivity. Qed.
+Proof. unfold Gen.Alloc.try_from_box_bytes_sized, try_from_box_bytes_sized. refine_eq. Qed.
 Lemma gen_try_from_box_bytes_slice ENV T b :
   Gen.Alloc.try_from_box_bytes_slice ENV T b = Ret (try_from_box_bytes_slice T b).
-Proof.
-  unfold Gen.Alloc.try_from_box_bytes_slice, try_from_box_bytes_slice. cbn [l_size l_align].
-  destruct (l_align (bb_layout b) =? al T); cbn [negb]; [|reflexivity].
-  unfold or_m, and_m, rem_m, div_m, bind.
-  destruct (sz T =? 0) eqn:HT; cbn [negb andb orb].
-  - destruct (l_size (bb_layout b) =? 0); cbn [negb]; reflexivity.
-  - destruct (l_size (bb_layout b) mod sz T =? 0); cbn [negb]; reflexivity.
-Qed.
+Proof. unfold Gen.Alloc.try_from_box_bytes_slice, try_from_box_bytes_slice. refine_eq. Qed.
 (* Drop: the one dealloc call, with the block's own pointer and the recorded layout *)
 Lemma gen_box_bytes_drop ENV b :
   Gen.Alloc.box_bytes_drop ENV b = Ret (match bb_drop b with Some l => Some (bb_ptr b, l) | None => None end).
-Proof. unfold Gen.Alloc.box_bytes_drop, bb_drop. destruct (l_size (bb_layout b) =? 0); reflexivity. Qed.
+Proof. unfold Gen.Alloc.box_bytes_drop, bb_drop. refine_eq. Qed.
 
 (* ---- the zero-initialising allocators: the translated functions are the modelled decision
    (Model/Alloc.v's zres) for the allocator answer the environment gives ---- *)
@@ -208,17 +196,15 @@ Lemma gen_try_zeroed_box E T :
   Gen.Alloc.try_zeroed_box E T = Ret (zres_value E (try_zeroed_box T (alloc_ok E (mkLayout (sz T) (al T))))).
 Proof.
   unfold Gen.Alloc.try_zeroed_box, try_zeroed_box, alloc_ok.
-  destruct (sz T =? 0); [reflexivity|].
-  destruct (alloc_zeroed_m E (mkLayout (sz T) (al T)) =? 0); reflexivity.
+  repeat (red_bind; split_if); red_bind; b2p; try reflexivity; try (exfalso; congruence); try (exfalso; lia).
 Qed.
 
 Lemma gen_try_zeroed_slice_box E T n :
   Gen.Alloc.try_zeroed_slice_box E T n = Ret (zres_value E (try_zeroed_slice_box T n (slice_alloc_ok E T n))).
 Proof.
   unfold Gen.Alloc.try_zeroed_slice_box, try_zeroed_slice_box, slice_alloc_ok, alloc_ok.
-  destruct ((sz T =? 0) || (n =? 0)); [reflexivity|].
-  cbn [bind]. rewrite layout_array_m_spec. destruct (layout_array T n) as [l|]; [|reflexivity].
-  destruct (alloc_zeroed_m E l =? 0); reflexivity.
+  rewrite layout_array_m_spec. destruct (layout_array T n) as [l|];
+  repeat (red_bind; split_if); red_bind; b2p; try reflexivity; try (exfalso; congruence); try (exfalso; lia).
 Qed.
 
 Lemma gen_try_zeroed_vec E T n :
